@@ -6,7 +6,8 @@
  *   V non-blank plain value char    v plain value interior char (V or blank)
  *   q quoted-text char    c comment-text char (anything but NL/NUL)
  *   S non-blank section-name char   s section-name interior char
- *   b symbolic blank (space or tab) d symbolic non-blank delimiter   h symbolic comment character
+ *   b symbolic blank (space or tab) B symbolic blank that is a member of the delimiter set
+ *   d symbolic non-blank delimiter   h symbolic comment character
  *   m cont-line char (V minus delimiters)   M cont-line interior (m or blank)
  *   x arbitrary byte except NL/NUL (malformed-line payload)   any other char: literal
  */
@@ -36,6 +37,7 @@ static bool cls_ok(char code, char c) {
     case 'S': return base && !is_sp(c) && c != ']' && !in_set(c, COMMENT);
     case 's': return base && (!is_sp(c) || c == ' ' || c == '\t') && c != ']' && !in_set(c, COMMENT);
     case 'b': return c == ' ' || c == '\t';
+    case 'B': return (c == ' ' || c == '\t') && in_set(c, DELIM);
     case 'd': return !is_sp(c) && c != 0 && in_set(c, DELIM);
     case 'h': return c != 0 && in_set(c, COMMENT);
     case 'm': return base && !is_sp(c) && !in_set(c, COMMENT) && c != '"' && !in_set(c, DELIM);
@@ -45,7 +47,7 @@ static bool cls_ok(char code, char c) {
     default: return false;
   }
 }
-static bool is_code(char t) { return t != 0 && in_set(t, "KkVWvqcSsbdhmnMx"); }
+static bool is_code(char t) { return t != 0 && in_set(t, "KkVWvqcSsbBdhmnMx"); }
 
 static bool span_is(const char *s, int a, int l) {
   if (s == NULL) return false;
